@@ -29,6 +29,17 @@ Theorem C04_refines_map : forall (digest : vec -> dgst) (valid : vec -> bool),
   lookup k (cold_docs (fst (step digest valid c s o))) = lookup k (spec_step valid (cold_docs s) o).
 Proof. exact refines_map. Qed.
 
+(* end to end, over unbounded API histories (mirror pokes restricted to existing ids, cache pokes
+   unrestricted): the canonical store after the history is the fold of the specification over the
+   same operations — with C04_reads_canonical, every read returns the most recent successful write *)
+Theorem C04_history_latest_write_wins : forall (digest : vec -> dgst) (valid : vec -> bool),
+  (forall a b : vec, digest a = digest b -> a = b) ->
+  forall (c : config) (docs : list (N * vec * meta)) (ops : list op) (s : state),
+  run_guarded digest valid c (init docs) ops = Some s ->
+  forall k : N,
+  lookup k (cold_docs s) = lookup k (fold_left (spec_step valid) ops (cold_docs (init docs))).
+Proof. exact history_refines. Qed.
+
 (* drains (forced or threshold), audits and background ticks change neither the canonical store nor
    any read result *)
 Theorem C04_drain_audit_neutral : forall (digest : vec -> dgst) (valid : vec -> bool),
@@ -90,6 +101,7 @@ Qed.
 
 Print Assumptions C04_reads_canonical.
 Print Assumptions C04_refines_map.
+Print Assumptions C04_history_latest_write_wins.
 Print Assumptions C04_drain_audit_neutral.
 Print Assumptions C04_api_no_orphan.
 Print Assumptions C04_orphan_repair_refuted.
